@@ -103,6 +103,7 @@ type Frame struct {
 	iters    map[ssa.Value]*rangeState
 	backEdges map[int]int
 	guardOf  map[ssa.Value]*guardInfo // values loaded from a lock-guarded field (lock discipline, C25)
+	arrSlices map[string]*Loc         // slice term cut from an array (x[:]) -> the array's location
 }
 
 type nameBinding struct {
